@@ -245,7 +245,33 @@ def corpus():
         inst = dict({"n": "x1", "of": R, "conns": good + [["no_such_port", {"k": "sig", "n": "zz"}]]}, **extra)
         extras.append({"class": "extra_connection", "site": f"corpus:last-on-{kindkey}",
                        "design": {"bundles": [_gd.DIFF] if kindkey == "pair" else [], "modules": [{"name": "Top", "sigs": sigs, "bundles": bundles, "insts": [inst]}], "top": "Top"}})
-    return [{"class": "missing_connection", "site": "corpus", "design": d1}, {"class": "width_mismatch", "site": "corpus", "design": d2},
+    # an empty range hidden in a concatenation whose other part makes the total come out at the port's width: reversed bounds
+    # (a width formula without `max(0, …)` makes them -1, -2, -3 wide) and equal bounds (0 wide)
+    hidden = []
+    E2 = {"k": "leaf", "kind": ".E92", "ports": [{"n": "q", "w": 2}], "params": [], "py": {"k": "ext", "name": "E92"}}
+    for (s_, e_, st, tw) in ((3, 1, None, 4), (2, 1, None, 3), (3, 0, None, 5), (2, 2, None, 2), (0, 2, -1, 4), (1, 3, -1, 4), (None, 0, None, 2), (4, None, None, 2)):
+        part = {"k": "slice", "p": {"k": "sig", "n": "s"}, "i": {"s": s_, "e": e_, "st": st}}
+        for order in (0, 1):
+            ps = [part, {"k": "sig", "n": "t"}][::-1 if order else 1]
+            mid = {"name": "Mid", "sigs": [{"n": "s", "w": 4, "port": False, "dir": "none"}, {"n": "t", "w": tw, "port": False, "dir": "none"}], "bundles": [],
+                   "insts": [{"n": "e", "of": copy.deepcopy(E2), "conns": [["q", {"k": "concat", "ps": ps}]]}]}
+            top = {"name": "Top", "sigs": [], "bundles": [], "insts": [{"n": "m", "of": {"k": "module", "name": "Mid"}, "conns": []}]}
+            hidden.append({"class": "bad_index", "site": f"corpus:empty-range-in-concat[{s_}:{e_}:{st}]", "design": {"bundles": [], "modules": [mid, top], "top": "Top"}})
+    # a no-connected port whose bare reference is a member of an anonymous bundle given to another instance
+    b1 = {"name": "B1", "tree": {"sigs": [lf("x", 1), lf("y", 1)], "subs": []}}
+    hasb1 = {"name": "HasB1", "sigs": [], "bundles": [{"n": "bp", "of": "B1", "port": True}],
+             "insts": [{"n": "r", "of": copy.deepcopy(r), "conns": [["p", {"k": "bref", "root": "bp", "path": ["x"]}], ["n", {"k": "bref", "root": "bp", "path": ["y"]}]]}]}
+    ncanon = {"bundles": [b1], "top": "Top", "modules": [two, hasb1, {"name": "Top", "sigs": [{"n": "s", "w": 1, "port": True, "dir": "none"}], "bundles": [],
+              "insts": [{"n": "i1", "of": {"k": "module", "name": "Two"}, "conns": [["a", {"k": "noconn"}], ["b", {"k": "sig", "n": "s"}]]},
+                        {"n": "i2", "of": {"k": "module", "name": "HasB1"}, "conns": [["bp", {"k": "anon", "fields": [["x", {"k": "pref", "inst": "i1", "port": "a"}], ["y", {"k": "sig", "n": "s"}]]}]]}]}]}
+    # an instance pair connected to a bundle instance of another type which has the pair's members and one more
+    tri = {"name": "Tri", "tree": {"sigs": [lf("p", 1), lf("n", 1), lf("cm", 1)], "subs": []}}
+    pairtri = {"bundles": [copy.deepcopy(_gd.DIFF), tri], "top": "Top", "modules": [{"name": "Top", "sigs": [{"n": "g", "w": 1, "port": True, "dir": "none"}],
+               "bundles": [{"n": "t3", "of": "Tri", "port": False}],
+               "insts": [{"n": "pr", "of": copy.deepcopy(_gd.LEAVES[3]), "pair": ["p", "n"], "conns": [["p", {"k": "bundle", "n": "t3"}], ["n", {"k": "sig", "n": "g"}]]}]}]}
+    more = hidden + [{"class": "noconn_referenced", "site": "corpus:reference-in-anonymous-bundle", "design": ncanon},
+                     {"class": "bad_member", "site": "corpus:pair-on-wider-bundle-type", "design": pairtri}]
+    return more + [{"class": "missing_connection", "site": "corpus", "design": d1}, {"class": "width_mismatch", "site": "corpus", "design": d2},
             {"class": "bad_index", "site": "corpus", "design": d3}, {"class": "bad_index", "site": "corpus:int-at-width", "design": d4}] + extras
 
 
